@@ -560,6 +560,16 @@ Lemma dinuc_obs_spec : forall X start end_ n,
   spec_ok (CDinucObs X start end_ n) (model (CDinucObs X start end_ n)) = true.
 Proof. intros. apply dinuc_spec_ok, id_sig_ok. Qed.
 
+Lemma id_perms_ok X start end_ n : perms_ok X start end_ (id_perms X start end_ n) = true.
+Proof.
+  unfold perms_ok, id_perms. destruct (shuffle_region X start end_) as [[a b]|]; [|reflexivity].
+  apply forallb_forall. intros p Hp. apply repeat_spec in Hp. subst. apply is_perm_seq.
+Qed.
+
+Lemma shuf_obs_spec : forall X start end_ n,
+  spec_ok (CShufObs X start end_ n) (model (CShufObs X start end_ n)) = true.
+Proof. intros. apply shuffle_spec_ok, id_perms_ok. Qed.
+
 (* determinism: the model is a function of (X, start, end, draws) - stated for the record *)
 Lemma shuffle_deterministic : forall X start end_ perms perms',
   perms = perms' -> shuffle_model X start end_ perms = shuffle_model X start end_ perms'.
